@@ -10,7 +10,7 @@
   `fpBits` and be a COUNTING filter (`counting = true`, which decides the cell width the loader
   parses); with the same `rate` and `auto` as well the loaded state is EQUAL to the exported one.
 -/
-import PyProb.Properties.C05
+import PyProb.Properties.C05_cuckoo
 import PyProb.Properties.C08
 
 namespace PyProb.Corollaries
